@@ -2,6 +2,7 @@ package bloomsearch
 
 import (
 	"math"
+	"reflect"
 )
 
 // MinMaxIndex records the observed numeric range of a field. Values outside
@@ -30,11 +31,29 @@ func ConvertToMinMaxInt64(value any) (minVal int64, maxVal int64, ok bool) {
 	case float64:
 		return floatToMinMaxInt64(v)
 	default:
+		if f, isFloat := namedFloatValue(value); isFloat {
+			return floatToMinMaxInt64(f)
+		}
 		intVal, isInt := toInt64(value)
 		if !isInt {
 			return 0, 0, false
 		}
 		return intVal, intVal, true
+	}
+}
+
+// namedFloatValue reports the value of a named floating-point type (for
+// example `type Celsius float64`), which the type switches on the built-in
+// types do not match.
+func namedFloatValue(value any) (float64, bool) {
+	if value == nil {
+		return 0, false
+	}
+	switch rv := reflect.ValueOf(value); rv.Kind() {
+	case reflect.Float32, reflect.Float64:
+		return rv.Float(), true
+	default:
+		return 0, false
 	}
 }
 
@@ -56,6 +75,9 @@ func ConvertToInt64(value any) (int64, bool) {
 	case float64:
 		return floatToInt64(v)
 	default:
+		if f, isFloat := namedFloatValue(value); isFloat {
+			return floatToInt64(f)
+		}
 		return toInt64(value)
 	}
 }
@@ -105,7 +127,20 @@ func toInt64(value any) (int64, bool) {
 	case uint64:
 		return clampUint64ToInt64(v), true
 	default:
-		return 0, false
+		// uintptr and named integer types (time.Duration, `type ID uint32`,
+		// ...) do not match the built-in cases above; convert them by kind so
+		// they are indexed like any other integer.
+		if value == nil {
+			return 0, false
+		}
+		switch rv := reflect.ValueOf(value); rv.Kind() {
+		case reflect.Int, reflect.Int8, reflect.Int16, reflect.Int32, reflect.Int64:
+			return rv.Int(), true
+		case reflect.Uint, reflect.Uint8, reflect.Uint16, reflect.Uint32, reflect.Uint64, reflect.Uintptr:
+			return clampUint64ToInt64(rv.Uint()), true
+		default:
+			return 0, false
+		}
 	}
 }
 
